@@ -1,3 +1,3 @@
 #!/bin/sh
 # replays this counterexample against the real build
-cd /repo && VERIF_SCRIPT=/verif/replays/C12/VHarnessP2PKSound_cfb4ceaf_0/script.json GOFLAGS=-mod=mod GOPROXY=off go test -vet=off -count=1 -overlay /verif/replays/C12/VHarnessP2PKSound_cfb4ceaf_0/overlay.json -run ^TestVerifReplay_VHarnessP2PKSound$ -v ./cashu/nuts/nut11
+cd /tmp/seedrepo_C12 && VERIF_SCRIPT=/verif/replays/C12/VHarnessP2PKSound_cfb4ceaf_0/script.json VERIF_RAW_SALT=0 GOFLAGS=-mod=mod GOPROXY=off go test -vet=off -count=1 -overlay /verif/replays/C12/VHarnessP2PKSound_cfb4ceaf_0/overlay.json -run ^TestVerifReplay_VHarnessP2PKSound$ -v ./cashu/nuts/nut11
